@@ -26,6 +26,7 @@ LADDER = [1e-2, 1e-4, 1e-6, 1e-8, 1e-10, 1e-12]
 # hostile triples: 709 (quick tier: 42); a non-linear look-alike leaves a defect of order 1 x scale on every rung.
 C_UPGRAD = 5000.0
 LAST_RUNG = 1e-2
+K_LAST = 300.0
 
 
 def shards(tier, seed):
@@ -70,12 +71,12 @@ def _three(case):
     return J, [c1[:, None] * J, c2[:, None] * J, c3[:, None] * J], a, b
 
 
-def _scale(outs, recs, Xs, a, b, m):
+def _scale(outs, recs, Xs, a, b, m, floor=1.0):
     tot = 0.0
     for coef, X, rec, o in zip((a, b, 1.0), Xs, recs, outs):
         w = rec["weights"]
         wl = float(np.abs(w).sum()) if w is not None and w.shape == (m,) else 1.0
-        tot += coef * M.smax(X) * max(wl, 1.0)
+        tot += coef * M.smax(X) * max(wl, floor)
     return max(tot, 1e-300)
 
 
@@ -115,7 +116,9 @@ def check_linear(case, ctx):
     scale = _scale(outs, recs, Xs, a, b, m)
     D = float(np.linalg.norm(outs[2] - a * outs[0] - b * outs[1]))
     ctx.maximum(f"{name}_{dname}", D / scale)
-    if not D <= E.tau(name, dname) * scale:
+    # (ConFIG: attainable accuracy eps x condition number of the unit rows it pseudo-inverts - the same for the three matrices up to
+    # rounding; the conditioning-aware tolerance of C08 / C10 / C11)
+    if not D <= max(E.tau(name, dname, desc, X) for X in Xs) * scale:
         ctx.violation("not_linear_under_scaling", case, {"A(X3)": outs[2].tolist(), "a A(X1) + b A(X2)": (a * outs[0] + b * outs[1]).tolist(), "defect_over_scale": D / scale})
     ctx.count(f"judged:{name}")
     spread = max(max(case["c1"]) / min(case["c1"]), max(case["c2"]) / min(case["c2"]))
@@ -139,6 +142,9 @@ def gen_upgrad(rng, i):
     # global scale over 8 decades: the bound is stated in units of s |w|, so it must hold at every scale of J
     J = J * float(10 ** rng.uniform(-4, 4))
     pref = [float(x) for x in np.round(rng.uniform(0.1, 2.0, size=m), 3)] if rng.random() < 0.4 else None
+    if pref is not None and rng.random() < 0.5:
+        k = float(10 ** rng.uniform(-4, 1))  # "all pref vectors": also small / large ones (the bound is in units of s |w|)
+        pref = [x * k for x in pref]
     c1, c2, a, b = gen_scalings(rng, m)
     # norm_eps: the default (1e-4: every judged matrix must then be clearly above it), or far below every matrix
     return {"J": J.tolist(), "class": klass, "dtype": "float64", "pref": pref, "c1": c1.tolist(), "c2": c2.tolist(), "a": a, "b": b,
@@ -176,7 +182,7 @@ def check_upgrad(case, ctx):
             ctx.not_judged(f"upgrad_raised_at_reg_eps={reg:g}")
             all_rungs = False
             continue
-        scale = _scale(outs, recs, Xs, a, b, m)
+        scale = _scale(outs, recs, Xs, a, b, m, floor=0.0)  # in units of s |w|_1 proper (small preference vectors give small outputs)
         D = float(np.linalg.norm(outs[2] - a * outs[0] - b * outs[1]))
         ratio = D / (np.sqrt(reg) * scale)
         ctx.maximum("upgrad_defect_over_sqrt_reg_scale", ratio)
@@ -187,6 +193,26 @@ def check_upgrad(case, ctx):
         last = (reg, D / scale)
     if last is not None and last[0] == LADDER[-1]:
         ctx.maximum("upgrad_defect_at_last_rung_over_scale", last[1])
+        ctx.maximum(f"upgrad_defect_at_last_rung_over_scale/{case['class']}", last[1])
+        # rho: smallest non-zero row norm relative to the largest singular value, over the three matrices (the regularisation
+        # reg_eps acts relative to rho^2 on the normalised Gramian)
+        rho = min(float(np.linalg.norm(X, axis=1)[np.linalg.norm(X, axis=1) > 0].min()) / M.smax(X) for X in Xs)
+        ctx.maximum(f"obs_upgrad_last_rung_defect_times_rho2_over_reg/{case['class']}", last[1] * rho ** 2 / last[0])
+        U = M.unit_rows(J)
+        U = U[np.linalg.norm(U, axis=1) > 0]
+        svu = M.singular_values(U)
+        pos = svu[svu > 1e-12 * svu[0]]
+        gamma = float((pos[-1] / pos[0]) ** 2)  # squared inverse condition number of the unit rows on their range
+        ctx.maximum(f"obs_upgrad_last_rung_defect_times_rho2_gamma_over_reg/{case['class']}", last[1] * rho ** 2 * gamma / last[0])
+        # sharper form of "vanishes as reg_eps -> 0": on the normalised Gramian the regularisation competes with rho^2 gamma (smallest
+        # row scale squared x squared inverse condition number of the unit rows), so at the last rung the defect is at most
+        # K_LAST reg_eps / (rho^2 gamma) x scale (calibrated: <= 12.8 over 108 000 hostile ladders; K_LAST = 300), never below rounding
+        sharp = max(1e-9, K_LAST * last[0] / (rho ** 2 * gamma))
+        if sharp < LAST_RUNG:
+            ctx.count("upgrad_sharp_last_rung_bound_checked")
+            if not last[1] <= sharp:
+                ctx.violation("upgrad_defect_does_not_vanish", case, {"reg_eps": last[0], "defect_over_scale": last[1], "bound": sharp, "rho": rho, "gamma": gamma})
+                return
         if not last[1] <= LAST_RUNG:
             ctx.violation("upgrad_defect_does_not_vanish", case, {"reg_eps": last[0], "defect_over_scale": last[1]})
             return
